@@ -50,8 +50,22 @@ type GraphBranch struct {
 }
 
 // GetEndNode returns the all end nodes of the branch.
+// The returned map is a copy: the end nodes of a branch cannot be changed through it.
 func (gb *GraphBranch) GetEndNode() map[string]bool {
-	return gb.endNodes
+	return copyEndNodes(gb.endNodes)
+}
+
+// copyEndNodes gives a branch its own set of end nodes: the map the caller passed in stays
+// the caller's, changing it later does not reach into a graph (or a compiled runnable).
+func copyEndNodes(endNodes map[string]bool) map[string]bool {
+	if endNodes == nil {
+		return nil
+	}
+	ret := make(map[string]bool, len(endNodes))
+	for k, v := range endNodes {
+		ret[k] = v
+	}
+	return ret
 }
 
 func newGraphBranch[T any](r *runnablePacker[T, []string, any], endNodes map[string]bool) *GraphBranch {
@@ -77,6 +91,7 @@ func newGraphBranch[T any](r *runnablePacker[T, []string, any], endNodes map[str
 }
 
 func NewGraphMultiBranch[T any](condition GraphMultiBranchCondition[T], endNodes map[string]bool) *GraphBranch {
+	endNodes = copyEndNodes(endNodes)
 	condRun := func(ctx context.Context, in T, opts ...any) ([]string, error) {
 		ends, err := condition(ctx, in)
 		if err != nil {
@@ -99,6 +114,7 @@ func NewGraphMultiBranch[T any](condition GraphMultiBranchCondition[T], endNodes
 func NewStreamGraphMultiBranch[T any](condition StreamGraphMultiBranchCondition[T],
 	endNodes map[string]bool) *GraphBranch {
 
+	endNodes = copyEndNodes(endNodes)
 	condRun := func(ctx context.Context, in *schema.StreamReader[T], opts ...any) ([]string, error) {
 		ends, err := condition(ctx, in)
 		if err != nil {
